@@ -118,3 +118,150 @@ impl Drop for CTxn {
         }
     }
 }
+
+/// One value read back through the typed column getters of the statement API.
+#[derive(Debug, Clone)]
+pub enum Col {
+    Null,
+    Bool(bool),
+    Int(i64),
+    Double(f64),
+    Str(String),
+    /// (column type code, JSON text from `ndb_stmt_column_json`)
+    Json(i32, J),
+}
+
+pub enum Bind<'a> {
+    Null,
+    Bool(bool),
+    Int(i64),
+    Double(f64),
+    Str(&'a str),
+    List(String),
+    Map(String),
+}
+
+pub struct CStmt {
+    ptr: *mut c::ndb_stmt_t,
+}
+
+impl CDb {
+    pub fn prepare(&self, cypher: &str, write: bool) -> Result<CStmt, CErr> {
+        let cy = CString::new(cypher).map_err(|_| CErr { code: -1, category: 0, message: "NUL in query".into() })?;
+        let mut st: *mut c::ndb_stmt_t = std::ptr::null_mut();
+        let rc = if write { c::ndb_prepare_write(self.ptr, cy.as_ptr(), &mut st) } else { c::ndb_prepare_read(self.ptr, cy.as_ptr(), &mut st) };
+        if rc != c::NDB_OK { Err(last_error(rc)) } else { Ok(CStmt { ptr: st }) }
+    }
+}
+
+impl CStmt {
+    pub fn bind(&mut self, name: &str, v: Bind<'_>) -> Result<(), CErr> {
+        let n = CString::new(name).map_err(|_| CErr { code: -1, category: 0, message: "NUL in name".into() })?;
+        let nul = |_| CErr { code: -1, category: 0, message: "NUL in value".into() };
+        let rc = match v {
+            Bind::Null => c::ndb_stmt_bind_null(self.ptr, n.as_ptr()),
+            Bind::Bool(b) => c::ndb_stmt_bind_bool(self.ptr, n.as_ptr(), if b { 1 } else { 0 }),
+            Bind::Int(i) => c::ndb_stmt_bind_int64(self.ptr, n.as_ptr(), i),
+            Bind::Double(f) => c::ndb_stmt_bind_double(self.ptr, n.as_ptr(), f),
+            Bind::Str(s) => {
+                let s = CString::new(s).map_err(nul)?;
+                c::ndb_stmt_bind_string(self.ptr, n.as_ptr(), s.as_ptr())
+            }
+            Bind::List(j) => {
+                let s = CString::new(j).map_err(nul)?;
+                c::ndb_stmt_bind_list(self.ptr, n.as_ptr(), s.as_ptr())
+            }
+            Bind::Map(j) => {
+                let s = CString::new(j).map_err(nul)?;
+                c::ndb_stmt_bind_map(self.ptr, n.as_ptr(), s.as_ptr())
+            }
+        };
+        if rc != c::NDB_OK { Err(last_error(rc)) } else { Ok(()) }
+    }
+
+    /// Step to the next row: Ok(Some(columns)) / Ok(None) when done.
+    pub fn step(&mut self) -> Result<Option<Vec<Col>>, CErr> {
+        let mut state: i32 = -1;
+        let rc = c::ndb_stmt_step(self.ptr, &mut state);
+        if rc != c::NDB_OK {
+            return Err(last_error(rc));
+        }
+        if state == c::NDB_STEP_DONE {
+            return Ok(None);
+        }
+        let n = c::ndb_stmt_column_count(self.ptr);
+        let mut out = Vec::with_capacity(n);
+        for i in 0..n {
+            let t = c::ndb_stmt_column_type(self.ptr, i);
+            let col = match t {
+                c::NDB_COL_NULL => Col::Null,
+                c::NDB_COL_BOOL => {
+                    let mut b: i32 = -1;
+                    let rc = c::ndb_stmt_column_bool(self.ptr, i, &mut b);
+                    if rc != c::NDB_OK {
+                        return Err(last_error(rc));
+                    }
+                    Col::Bool(b != 0)
+                }
+                c::NDB_COL_INT64 => {
+                    let mut v: i64 = 0;
+                    let rc = c::ndb_stmt_column_int64(self.ptr, i, &mut v);
+                    if rc != c::NDB_OK {
+                        return Err(last_error(rc));
+                    }
+                    Col::Int(v)
+                }
+                c::NDB_COL_DOUBLE => {
+                    let mut v: f64 = 0.0;
+                    let rc = c::ndb_stmt_column_double(self.ptr, i, &mut v);
+                    if rc != c::NDB_OK {
+                        return Err(last_error(rc));
+                    }
+                    Col::Double(v)
+                }
+                c::NDB_COL_STRING => {
+                    let mut p: *mut c_char = std::ptr::null_mut();
+                    let rc = c::ndb_stmt_column_string(self.ptr, i, &mut p);
+                    if rc != c::NDB_OK {
+                        return Err(last_error(rc));
+                    }
+                    let s = unsafe { CStr::from_ptr(p) }.to_string_lossy().to_string();
+                    c::ndb_string_free(p);
+                    Col::Str(s)
+                }
+                other => {
+                    let mut p: *mut c_char = std::ptr::null_mut();
+                    let rc = c::ndb_stmt_column_json(self.ptr, i, &mut p);
+                    if rc != c::NDB_OK {
+                        return Err(last_error(rc));
+                    }
+                    let s = unsafe { CStr::from_ptr(p) }.to_string_lossy().to_string();
+                    c::ndb_string_free(p);
+                    let j: J = serde_json::from_str(&s).map_err(|e| CErr { code: -2, category: 0, message: format!("column json is not JSON: {e}") })?;
+                    Col::Json(other, j)
+                }
+            };
+            out.push(col);
+        }
+        Ok(Some(out))
+    }
+
+    pub fn write_count(&mut self) -> Result<u32, CErr> {
+        let mut n: u32 = 0;
+        let rc = c::ndb_stmt_write_count(self.ptr, &mut n);
+        if rc != c::NDB_OK { Err(last_error(rc)) } else { Ok(n) }
+    }
+
+    pub fn reset(&mut self) -> Result<(), CErr> {
+        let rc = c::ndb_stmt_reset(self.ptr);
+        if rc != c::NDB_OK { Err(last_error(rc)) } else { Ok(()) }
+    }
+}
+
+impl Drop for CStmt {
+    fn drop(&mut self) {
+        if !self.ptr.is_null() {
+            let _ = c::ndb_stmt_finalize(self.ptr);
+        }
+    }
+}
